@@ -30,6 +30,7 @@ DECIDED = [
     "C02.7 dry run: all three decisions return False before anything else",
     "C02.8 retry budget strictly consumed (should_rerun table + result list ownership)",
     "C02.9 a traversed parent that needs no more running is dropped (progress of the inverse DFS)",
+    "C02.10 recovery from a hung occupant: the re-entrancy limit strictly grows each time the waiting budget is exhausted",
 ]
 NOT_DECIDED = [
     "termination / absence of livelock between bouncing workers as such",
@@ -204,6 +205,9 @@ def run(ctx: Ctx) -> None:
     ctx.call(N.should_rerun_table, "8")
     ctx.call(T.t_r1, "8/T.R1")
     ctx.call(T.t_g4, "9/T.G4")
+    from .c04 import reentrancy_rule
+
+    ctx.call(reentrancy_rule, "10")
     # the drop must exist: otherwise the child picks the same finished parent forever
     sites = [c for c in calls_in(ctx.repo.func(T.TOT).node) if call_name(c) == "drop_parent"]
     ctx.record("9", "COUNT", T.TOT, "a traversed parent that needs no more running is dropped for the child", len(sites) >= 1, {},
